@@ -122,31 +122,34 @@ package keeper
 // current feeds prices, block time, interval elapsed); "interval elapsed" is now >= interval + last full send.
 // Nothing to send: no effect at all. Otherwise the packet takes the next sequence number, carries those prices,
 // the remembered prices are merged with them, and the interval clock restarts ONLY on an interval (full) send.
+// "The interval since the last full send has elapsed" is stated over the integers: now >= interval + last (F13: the code
+// used to add in int64, which wraps for intervals from 2^63 on and made every block a full send).
 //@ func (k Keeper) ProducePacket
 //@ modifies Store_tunnel, Bank, Other, RouteSent
+//@ assert after sendAll: sendAll == (unixNow >= tunnel.Interval + latestPrices.LastInterval)
 //@ requires wfTunnel(Store_tunnel, tunnelID) && wfLP(Store_tunnel, tunnelID)
 // the store invariant (every tunnel and latest-prices record is filed under its own id, fee payers are addresses) is kept
 //@ requires forall t Int :: wfTunnel(Store_tunnel, t) && wfLP(Store_tunnel, t)
 //@ ensures err == nil ==> (forall t Int :: wfTunnel(Store_tunnel, t))
 //@ ensures err == nil ==> (forall t Int :: wfLP(Store_tunnel, t))
 //@ ensures (let t = old(tunnelAt(Store_tunnel, tunnelID)) in let lp = old(lpAt(Store_tunnel, tunnelID)) in let now = ctx.BlockTime().Unix() in
-//@     let sendAll = (now >= wrap64(wrap64(t.Interval) + lp.LastInterval)) in
+//@     let sendAll = (now >= t.Interval + lp.LastInterval) in
 //@     let np = GenerateNewPrices(t.SignalDeviations, CreatePricesMap(lp.Prices), feedsPricesMap, now, sendAll) in
 //@     (err == nil && len(np) == 0 ==> Store_tunnel == old(Store_tunnel) && Bank == old(Bank) && Other == old(Other)))
 //@ ensures (let t = old(tunnelAt(Store_tunnel, tunnelID)) in let lp = old(lpAt(Store_tunnel, tunnelID)) in let now = ctx.BlockTime().Unix() in
-//@     let sendAll = (now >= wrap64(wrap64(t.Interval) + lp.LastInterval)) in
+//@     let sendAll = (now >= t.Interval + lp.LastInterval) in
 //@     let np = GenerateNewPrices(t.SignalDeviations, CreatePricesMap(lp.Prices), feedsPricesMap, now, sendAll) in
 //@     (err == nil && len(np) > 0 ==> tunnelAt(Store_tunnel, tunnelID).Sequence == wrapu64(t.Sequence + 1)))
 //@ ensures (let t = old(tunnelAt(Store_tunnel, tunnelID)) in let lp = old(lpAt(Store_tunnel, tunnelID)) in let now = ctx.BlockTime().Unix() in
-//@     let sendAll = (now >= wrap64(wrap64(t.Interval) + lp.LastInterval)) in
+//@     let sendAll = (now >= t.Interval + lp.LastInterval) in
 //@     let np = GenerateNewPrices(t.SignalDeviations, CreatePricesMap(lp.Prices), feedsPricesMap, now, sendAll) in
 //@     (err == nil && len(np) > 0 ==> has(Store_tunnel, types.TunnelPacketStoreKey(tunnelID, wrapu64(t.Sequence + 1))) && packetAt(Store_tunnel, tunnelID, wrapu64(t.Sequence + 1)).Prices == np))
 //@ ensures (let t = old(tunnelAt(Store_tunnel, tunnelID)) in let lp = old(lpAt(Store_tunnel, tunnelID)) in let now = ctx.BlockTime().Unix() in
-//@     let sendAll = (now >= wrap64(wrap64(t.Interval) + lp.LastInterval)) in
+//@     let sendAll = (now >= t.Interval + lp.LastInterval) in
 //@     let np = GenerateNewPrices(t.SignalDeviations, CreatePricesMap(lp.Prices), feedsPricesMap, now, sendAll) in
 //@     (err == nil && len(np) > 0 ==> lpAt(Store_tunnel, tunnelID).LastInterval == (sendAll ? now : lp.LastInterval)))
 //@ ensures (let t = old(tunnelAt(Store_tunnel, tunnelID)) in let lp = old(lpAt(Store_tunnel, tunnelID)) in let now = ctx.BlockTime().Unix() in
-//@     let sendAll = (now >= wrap64(wrap64(t.Interval) + lp.LastInterval)) in
+//@     let sendAll = (now >= t.Interval + lp.LastInterval) in
 //@     let np = GenerateNewPrices(t.SignalDeviations, CreatePricesMap(lp.Prices), feedsPricesMap, now, sendAll) in
 //@     (err == nil && len(np) > 0 ==> lpAt(Store_tunnel, tunnelID).Prices == types.mergedPrices(lp.Prices, np) && lpAt(Store_tunnel, tunnelID).TunnelID == tunnelID))
 //@ ensures err == nil ==> old(has(Store_tunnel, types.TunnelStoreKey(tunnelID))) && old(has(Store_tunnel, types.LatestPricesStoreKey(tunnelID)))
